@@ -188,18 +188,26 @@ PlainMsg(x) ==
   IF "fs" \notin DOMAIN x THEN [t |-> "s", tok |-> x.tok]
   ELSE [t |-> "m", fs |-> {<<p.name, IF p.has THEN PlainVal(p.v) ELSE [t |-> "unset"]>> : p \in Range(x.fs)}]
 
-\* a value satisfies the (buf.validate.field).required rules of its message types: every required field
-\* is populated (a singular field is set / non-zero, a list or map is non-empty), at every depth
-RECURSIVE SatisfiesRequired(_, _)
+\* a value satisfies the (buf.validate.field) rules of its message types that bear on which values the
+\* server accepts and sends: every required field is populated (a singular field is set / non-zero, a
+\* list or map is non-empty), and a singular string / bytes value has a length within min_len .. max_len
+\* (characters of a string, BYTES of a bytes value - not characters of its JSON rendering), at every depth
+RECURSIVE SatisfiesRules(_, _)
 Populated(p) == p.has /\ (p.v.t \in {"l", "mp"} => Len(p.v.es) > 0)
-SatisfiesRequired(s, x) ==
+LenOK(f, v) == (v.t = "s" /\ f.kind \in {"string", "bytes"} /\ "len" \in DOMAIN v) =>
+                 /\ (f.rules.minLen >= 0 => v.len >= f.rules.minLen)
+                 /\ (f.rules.maxLen >= 0 => v.len <= f.rules.maxLen)
+SatisfiesRules(s, x) ==
   IF "fs" \notin DOMAIN x \/ ~HasMsg(s, x.type) THEN TRUE
   ELSE LET M == MsgByName(s, x.type) IN
        \A p \in Range(x.fs) :
           /\ (FieldOf(M, p.name).rules.required => Populated(p))
-          /\ (p.has /\ p.v.t = "m" => SatisfiesRequired(s, p.v))
-          /\ (p.has /\ p.v.t = "l" => \A i \in DOMAIN p.v.es : p.v.es[i].t = "m" => SatisfiesRequired(s, p.v.es[i]))
-          /\ (p.has /\ p.v.t = "mp" => \A i \in DOMAIN p.v.es : p.v.es[i].v.t = "m" => SatisfiesRequired(s, p.v.es[i].v))
+          /\ (p.has => LenOK(FieldOf(M, p.name), p.v))
+          \* a field without presence is judged by its rules also when it holds the zero value (length 0)
+          /\ (~p.has /\ FieldOf(M, p.name).card = "one" /\ FieldOf(M, p.name).kind \in {"string", "bytes"} => FieldOf(M, p.name).rules.minLen <= 0)
+          /\ (p.has /\ p.v.t = "m" => SatisfiesRules(s, p.v))
+          /\ (p.has /\ p.v.t = "l" => \A i \in DOMAIN p.v.es : p.v.es[i].t = "m" => SatisfiesRules(s, p.v.es[i]))
+          /\ (p.has /\ p.v.t = "mp" => \A i \in DOMAIN p.v.es : p.v.es[i].v.t = "m" => SatisfiesRules(s, p.v.es[i].v))
 
 \* the losses are allowed, not required: what comes back is the value itself or its normal form
 RoundTripOK(s, x, back) == PlainMsg(back) \in {NormMsg(s, x), PlainMsg(x)}
